@@ -451,8 +451,12 @@ class Gen(object):
                     else:
                         inner = T(om.unary('-', self.expr(INT, depth - 1, selected_kind)), INT)
                     om.STATS['unary-over-unary'] = om.STATS.get('unary-over-unary', 0) + 1
-                    return T(om.unary('-', inner), INT)
-                return T(om.unary('-', self.expr(INT, depth - 1, selected_kind)), INT)
+                    return T(om.unary(r.choice(('-', '-', '+')), inner), INT)
+                # (the sign operators are two: + is an operator of its own, not the absence of one)
+                sign = r.choice(('-', '-', '+'))
+                if sign == '+':
+                    om.STATS['unary-plus'] = om.STATS.get('unary-plus', 0) + 1
+                return T(om.unary(sign, self.expr(INT, depth - 1, selected_kind)), INT)
             if op == 'card':
                 hs = self.vars_of(lambda t: isinstance(t, tuple) and t[0] in ('inst', 'set'))
                 if hs:
